@@ -471,7 +471,7 @@ RULES['C08'] = ('grammar programs x multisets of 2-5 overlapping chart.run tasks
 ATTEMPTS = [None, 1, 2, 3, 4]
 DELAYS = [None, 0, 0.3]
 EXCS = [None, ['E1'], ['E1', 'E2']]
-OUTCOMES = [None, 'E1', 'E2', 'E1Sub', 'EOther', 'Fatal']
+OUTCOMES = [None, 'E1', 'E2', 'E1Sub', 'EOther', 'ETimeout', 'Fatal']
 
 
 def carrier(kind, cfg, seqn, mode, sib):
